@@ -112,8 +112,9 @@ type Type struct {
 	Elem *Type   // list/set element, map value
 	St   *Struct // struct
 	Ptr  bool    // Go representation is *T (structs anywhere; scalars/strings as optional fields)
-	// Named: a plain i64 whose Go type is nevertheless the named int64 type that is an enum when
-	// annotated with its own name - the annotation ("i64") alone decides the wire type.
+	// Named: the Go type is a named type although the schema type is the plain one: an i64 on the
+	// named int64 type that is an enum when annotated with its own name (the annotation alone decides
+	// the wire type); a string / binary on a named string / byte-slice type.
 	Named bool
 }
 
